@@ -43,6 +43,7 @@ class Violation(Exception):
     """The oracle disagreed with the code under test."""
 
     def __init__(self, kind: str, detail: str = "", where: str = "", info=None):
+        detail = detail if len(detail) <= 20000 else detail[:20000] + f" ... [{len(detail) - 20000} more characters]"
         super().__init__(f"{kind}: {detail}")
         self.kind = kind
         self.detail = detail
@@ -61,6 +62,9 @@ class Err:
         self.exc = exc
         self.type = type(exc).__name__
         self.where = _innermost_lib_frame(exc)
+        # the frames (and with them possibly very large half-built values of the code under test) are not kept alive
+        exc.__traceback__ = None
+        exc.__context__ = None
 
     def __repr__(self):
         return f"Err({self.type}: {str(self.exc)[:120]} @ {self.where})"
@@ -234,21 +238,33 @@ def _run_one(prop, known, ctx, case, state):
     if crumb:  # crash isolation re-run: remember the case about to run, in case the interpreter dies in it
         with open(crumb, "w") as fh:
             json.dump(case, fh, default=str)
+    state["current"] = case
     try:
-        prop.run_case(case, ctx)
+        try:
+            prop.run_case(case, ctx)
+        except MemoryError:
+            # the worker's address-space limit was hit while running / judging this case (a parse that returns or
+            # allocates an absurdly large value): a finding about this case, not a harness error
+            _open_headroom()
+            raise Violation("memory-exhausted", "running this case exhausted the worker's memory limit (VERIF_WORKER_MEM_GB); a parse returned or tried to allocate an absurdly large value") from None
     except Violation as v:
         kid = known.match(case, v)
         if kid is not None:
             ctx.known_hits[kid] += 1
             return
         sig = v.signature
+        if v.kind == "memory-exhausted":
+            state["target"] = sig
         if state.get("target") is None:
             state["target"] = sig
         if sig != state["target"]:
             ctx.also_seen[sig] += 1
             return
+        # drop the frames of run_case (their locals may hold very large parsed values) before handing the exception on
+        v.__traceback__ = None
+        v.__context__ = None
         state["last"] = (case, v)
-        raise
+        raise v from None
 
 
 def _limit_memory():
@@ -257,7 +273,23 @@ def _limit_memory():
         import resource
 
         lim = int(os.environ.get("VERIF_WORKER_MEM_GB", "8")) << 30
-        resource.setrlimit(resource.RLIMIT_AS, (lim, lim))
+        # soft limit = the budget; the hard limit leaves headroom that is only opened to REPORT an exhaustion
+        resource.setrlimit(resource.RLIMIT_AS, (lim, lim + (4 << 30)))
+    except Exception:  # noqa: BLE001 - best effort
+        pass
+
+
+def _open_headroom():
+    """After a MemoryError: raise the soft address-space limit to the hard one, so that the finding can be reported
+    (pickled and sent to the parent) even if something large is still referenced."""
+    try:
+        import gc
+        import resource
+
+        gc.collect()
+        soft, hard = resource.getrlimit(resource.RLIMIT_AS)
+        if hard != resource.RLIM_INFINITY and soft != hard:
+            resource.setrlimit(resource.RLIMIT_AS, (hard, hard))
     except Exception:  # noqa: BLE001 - best effort
         pass
 
@@ -318,6 +350,22 @@ def _worker(args):
                 failure = {"case": case, "kind": v.kind, "detail": v.detail, "signature": v.signature}
             except hypothesis.errors.FailedHealthCheck as e:
                 return {"harness_error": f"health check: {e}"}
+            except MemoryError:
+                _open_headroom()
+                if state.get("last") is not None:
+                    case, v = state["last"]
+                    failure = {"case": case, "kind": v.kind, "detail": v.detail[:4000], "signature": v.signature}
+                elif state.get("current") is not None:
+                    failure = {"case": state["current"], "kind": "memory-exhausted", "detail": "the worker's memory limit was exhausted while this case was running", "signature": "memory-exhausted"}
+                else:
+                    raise
+            except hypothesis.errors.Flaky:
+                # the case raised a Violation and behaved differently when Hypothesis ran it again (code under test that
+                # misbehaves non-deterministically, e.g. a corrupted generated method): the violation that did occur counts
+                if state.get("last") is None:
+                    raise
+                case, v = state["last"]
+                failure = {"case": case, "kind": v.kind, "detail": "(not reproduced identically on re-execution) " + v.detail, "signature": v.signature}
         elif isinstance(stage, EnumStage):
             for i, case in enumerate(stage.cases()):
                 if i % stage.shards != shard:
@@ -539,9 +587,22 @@ def run_check(prop, tier, seed, replay=None):
     from concurrent.futures import ProcessPoolExecutor
     from concurrent.futures.process import BrokenProcessPool
 
+    # wall-clock guard against a worker that never returns (never a verdict about the property: exit 2 = inconclusive)
+    budget = float(os.environ.get("VERIF_RUN_TIMEOUT_S", "3600" if tier == "quick" else "21600"))
+    from concurrent.futures import TimeoutError as _FTimeout
+
     try:
-        with ProcessPoolExecutor(max_workers=nproc, mp_context=ctx_mp, initializer=_limit_memory) as pool:
-            results = list(pool.map(_worker, jobs, chunksize=1))
+        pool = ProcessPoolExecutor(max_workers=nproc, mp_context=ctx_mp, initializer=_limit_memory)
+        try:
+            results = list(pool.map(_worker, jobs, chunksize=1, timeout=budget))
+        except _FTimeout:
+            for pr in list(getattr(pool, "_processes", {}).values()):
+                pr.kill()
+            pool.shutdown(wait=False, cancel_futures=True)
+            print(f"HARNESS ERROR in {prop.ID}: no result within {budget:.0f} s (VERIF_RUN_TIMEOUT_S); inconclusive", file=sys.stderr)
+            return 2
+        else:
+            pool.shutdown()
     except BrokenProcessPool:
         results = _isolate_crash(prop, jobs, ctx_mp)
         if results is None:
